@@ -1,13 +1,16 @@
 import RuxModel.Drv.Common
 import RuxModel.Model.Reg
 import RuxModel.Model.Rest
+import RuxModel.Model.PathFmt
 /-
   driver engine `reg`: registration programs (C12, C04 chain assembly, C16 through `resource`).
 
   Program lines are BUFFERED (answer `ok`) and executed by `run` with the model's `execList` on the
   parsed statement tree — the very function the theorems of Props/C12 are about:
 
-    new <405?> [<cache>]                         reset; 1 = router built with HandleMethodNotAllowed;
+    new <opts> [<cache>]                         reset; <opts> is a bit mask: 1 = router built with HandleMethodNotAllowed,
+                                                 2 = with StrictLastSlash (the model then formats with `fmtPath true` / `simpleFmt` of
+                                                 Model/PathFmt.lean - the full formatPath - instead of the white-space-free `cleanFmt`);
                                                  <cache> (0..65535): 0 = no route cache, 1000 = EnableCaching, n = CachingWithNum(n).
                                                  The model has no cache: the lookup is cache-transparent (C07_transparent), so the
                                                  answer to a repeated serve/probe line is the answer to the first one.
@@ -43,11 +46,21 @@ structure RegSt where
   bufs : List (Nat × List H)
   lines : List (List String)      -- buffered program lines, newest first
   st : Option RS                  -- `none` after a panic: the router is in no defined state
+  strict : Bool := false          -- the router was built with StrictLastSlash
 
-def RegSt.init : RegSt := ⟨false, [], [], some RS.init⟩
+def RegSt.init : RegSt := { opt405 := false, bufs := [], lines := [], st := some RS.init }
+
+/-- option mask of `new`: bit 1 HandleMethodNotAllowed, bit 2 StrictLastSlash -/
+def optMask (o : String) : Nat := (o.toNat?).getD 0
+def RegSt.fresh (o : String) : RegSt :=
+  { RegSt.init with opt405 := optMask o % 2 = 1, strict := (optMask o / 2) % 2 = 1 }
 
 def regLimit : Nat := 63
 def regCfg : Cfg := cleanCfg regLimit
+/-- StrictLastSlash routers: `formatPath` with the strict flag (trailing slashes are kept) -/
+def regCfgOf (strict : Bool) : Cfg := if strict then ⟨fmtPath true, simpleFmt, regLimit⟩ else regCfg
+/-- the request path as `QuickMatch` formats it -/
+def reqFmt (strict : Bool) (p : Bytes) : Bytes := if strict then fmtPath true p else cleanFmt p
 
 def parseArg (bufs : List (Nat × List H)) (s : String) : Option (List H) :=
   if s = "-" then some []
@@ -186,10 +199,10 @@ def chainAns (st : RS) (res : Resolved) : String :=
   kind ++ " " ++ natList (chain d404 d405 st.toScope res)
 
 def regStep (s : RegSt) : List String → RegSt × String
-  | ["new", o] => ({ RegSt.init with opt405 := o = "1" }, "ok")
+  | ["new", o] => (RegSt.fresh o, "ok")
   | ["new", o, c] =>
     match c.toNat? with
-    | some n => if n < 65536 then ({ RegSt.init with opt405 := o = "1" }, "ok") else (s, "bad-op")
+    | some n => if n < 65536 then (RegSt.fresh o, "ok") else (s, "bad-op")
     | none => (s, "bad-op")
   | ["buf", b, tags] =>
     match b.toNat?, parseNatList tags with
@@ -203,7 +216,7 @@ def regStep (s : RegSt) : List String → RegSt × String
       match parseBlock s.bufs (ls.length + 1) true ls with
       | none => ({ s with lines := [] }, "bad-op")
       | some (prog, _) =>
-        match execList regCfg st prog with
+        match execList (regCfgOf s.strict) st prog with
         | .ok st' =>
           ({ s with lines := [], st := some st' },
            s!"ok {st'.routes.length} ;; {Bytes.toHex st'.pfx} {st'.grp.length} {st'.globals.length}")
@@ -251,7 +264,7 @@ def regStep (s : RegSt) : List String → RegSt × String
     match s.st, Bytes.ofHex p with
     | none, _ => (s, "skipped")
     | some st, some p =>
-      match resolve s.opt405 st.routes (ascii m) (cleanFmt p) with
+      match resolve s.opt405 st.routes (ascii m) (reqFmt s.strict p) with
       | .served r => (s, chainAns st (.found r))
       | .notAllowed alm =>
         -- the Allow header is written by the built-in 405 handler only
